@@ -11,7 +11,8 @@ TARGETS = ["Proofs.C04"]
 GEN_PREFIXES = ["clean."]
 THEOREMS = {"Proofs.C04": ["VerifModel.C04." + t for t in [
     "cleanCond_eq", "textClean_eq", "C04_clean", "C04_textclean", "isValid_iff", "compress_mem",
-    "C04_outputs_valid", "C04_all_masked", "C04_nonfinite_clim", "C04_pairwise", "C04_all_missing_nan"]]}
+    "C04_outputs_valid", "C04_all_masked", "C04_nonfinite_clim", "C04_pairwise", "C04_all_missing_nan",
+    "validMask_insertRow", "compress_insertAt", "C04_delete_invariance", "C04_delete_invariance_many"]]}
 TRUSTED_BASE = c01.TRUSTED_BASE + [
     "harness/translate.py for the mask expression of util.clean and the body of Text._clean (re-proved equal to the "
     "model each run); the surrounding statements of util.clean are pattern-checked, not translated",
@@ -28,7 +29,7 @@ LEVEL_TEXT = ("Lean theorems: util.clean maps exactly {masked, NaN, -999, > 1e30
               "Text._clean maps exactly {unparseable, -999, NaN} to NaN (both cleaners machine-translated and re-proved "
               "each run); every value get_scores hands on is a finite number or the single-NaN placeholder; a missing "
               "climatology value or a zero divisor invalidates the case; every obs/fcst metric drops a pair with a missing "
-              "member and returns NaN for no pairs. Dataset-level deletion invariance is decided by the coordinate oracle.")
+              "member and returns NaN for no pairs. Dataset-level deletion invariance: C04_delete_invariance(_many) — inserting any number of cases with a missing value in some requested column leaves what get_scores hands on unchanged (every non-All axis); also decided on the implementation by the coordinate oracle.")
 TECHNIQUE = "Lean 4 proof (cleaners regenerated from source each run) + differential correspondence + metamorphic oracle"
 NC = ["m", "nan", "-999", "-1999/2", "0", "5/2", xr(1e30), xr(np.nextafter(1e30, 2e30)), xr(1e31), "inf", "-inf", xr(-1e31)]
 TOKENS = ["-999", "-999.0", "-9.99e2", "NA", ".", "nan", "NaN", "inf", "-inf", "abc", "1e3", "1_0", "+5", "0.5", "-999.5", "1e31"]
